@@ -70,7 +70,9 @@ pub fn run_in_pool<T: Send>(threads: usize, f: impl FnOnce() -> T + Send) -> Res
 fn outcome_of<E: Runnable>(e: &E) -> Outcome {
     match vengine::guard(|| e.run()) {
         Ok(o) => Outcome::Done(o),
-        Err(m) => Outcome::Panicked(m),
+        // keep the payload only: the "@ file:line" suffix comes from the engine's panic hook, which a
+        // child process started by this check does not install
+        Err(m) => Outcome::Panicked(m.rsplit_once(" @ ").map(|x| x.0.to_string()).unwrap_or(m)),
     }
 }
 
